@@ -417,6 +417,37 @@ func (c *pairCtx) rel(kind string, K, V ssa.Value, env map[*ssa.UnOp]plit, depth
 	if call == nil {
 		return c.fail("%s at %s is not derived from the identifier by a recognised step", V.Name(), pos(V))
 	}
+	// derived inside a private helper: the relation is demanded of every successful return of the helper
+	if g := call.Call.StaticCallee(); g != nil && g.Pkg == c.p.RootSSA && !call.Call.IsInvoke() && g.Object() != nil && !g.Object().Exported() && len(g.Blocks) > 0 && calleeName(call) != "DecodeSlab" && calleeName(call) != "EncodeSlab" {
+		kt := c.term(K, env, 0)
+		pi := -1
+		for i, a := range call.Call.Args {
+			if i < len(g.Params) && ptermEq(kt, c.term(a, env, 0)) {
+				pi = i
+			}
+		}
+		if pi < 0 {
+			return c.fail("the helper %s called at %s is not handed the identifier %s", g.Name(), pos(call), kt)
+		}
+		n := 0
+		for _, ret := range returnsOf(g) {
+			if cl, _ := classifyReturn(ret); cl == retError || ex.Index >= len(ret.Results) {
+				continue
+			}
+			rv := canon(ret.Results[ex.Index])
+			if isNilConst(rv) {
+				continue // the not-found answer
+			}
+			n++
+			if !c.rel(kind, g.Params[pi], rv, map[*ssa.UnOp]plit{}, depth+1) {
+				return c.fail("in the helper %s", g.Name())
+			}
+		}
+		if n == 0 {
+			return c.fail("the helper %s has no successful return with a value", g.Name())
+		}
+		return true
+	}
 	args := callArgs(call)
 	switch kind {
 	case "slabOf":
